@@ -54,7 +54,7 @@ def run(ctx):
     base += [c for c in sc.generate(ctx, "k_two", [1, 2], 2, GAPS, "std", filt="disjoint") if not one_sided(c)]
     if not quick:
         base += sc.slice_cases(sc.generate(ctx, "k_one3", [1], 3, GAPS, "std"), 1500, ctx.seed)[0]
-    base, _ = sc.slice_cases(base, 45 if quick else 1500, ctx.seed * 141650939 + 3)
+    base, _ = sc.slice_cases(base, 45 if quick else 400, key="crashbase")
     golden = sc.with_flavors([dict(c, tokens=[["F", NEVER, 4]] + c["tokens"]) for c in base], flavors)
     gtraces = sysfam.run_cases(ctx, golden)
     cases = []
@@ -83,4 +83,4 @@ def replay(ctx, rep):
 
 
 if __name__ == "__main__":
-    main("C07", run, replay)
+    main("C07", run, replay, level="fault_enumeration")
